@@ -366,6 +366,8 @@ bool AutomationMgr::handleMidi(int channel, int type, int val)
         if(bound_nrpn)
             return 1;
         }
+        else
+            return 0; //sequence is not complete: nothing to bind or learn yet
         
     }
     else {
